@@ -1170,8 +1170,8 @@ func HarnessC03Ancestry2() {
 }
 
 // HarnessC10MapOrder: rules that walk Go maps, run twice under two solver-chosen iteration orders of
-// every map: the set of messages must be the same (three mutually overlapping paths; a child that
-// re-declares two inherited properties; three operations sharing an id).
+// every map: the set of messages must be the same (three mutually overlapping paths; one or two children
+// that re-declare inherited properties, continue-on-errors on and off; three operations sharing an id).
 func HarnessC10MapOrder() {
 	var run func() verifOutcome
 	switch verifChoose(2) {
@@ -1192,13 +1192,21 @@ func HarnessC10MapOrder() {
 		parent.Properties = map[string]spec.Schema{"p": {}, "q": {}, "r": {}}
 		own := spec.Schema{}
 		own.Properties = map[string]spec.Schema{"p": {}, "q": {}}
-		if verifBool() {
+		variant := verifChoose(3) // 0: two re-declared members; 1: three; 2: two, and a second offending child
+		if variant == 1 {
 			own.Properties["r"] = spec.Schema{}
 		}
 		child := spec.Schema{}
 		child.AllOf = []spec.Schema{*spec.RefSchema("#/definitions/P"), own}
 		sw := &spec.Swagger{}
 		sw.Definitions = spec.Definitions{"P": parent, "K": child}
+		if variant == 2 { // a second offending definition: which one is met first depends on the map order
+			own2 := spec.Schema{}
+			own2.Properties = map[string]spec.Schema{"q": {}}
+			child2 := spec.Schema{}
+			child2.AllOf = []spec.Schema{*spec.RefSchema("#/definitions/P"), own2}
+			sw.Definitions["K2"] = child2
+		}
 		s := newSpecHarnessValidator(sw, nil, verifBool(), true)
 		run = func() verifOutcome { return outcomeOfResult(s.validateDuplicatePropertyNames()) }
 	}
